@@ -911,7 +911,38 @@ impl<'t, 'a> Gen<'t, 'a> {
         let n = self.t.below(4);
         let mut parts = vec![];
         for _ in 0..n {
-            match self.t.weighted(&[4, 2, 2, 1, 1]) {
+            match self.t.weighted(&[4, 2, 2, 1, 1, 1, 1, 1]) {
+                5 => {
+                    // accessor of an object literal with a body of its own (directives, temporaries)
+                    self.push_fn_scope(&[], false, false, false);
+                    let body = self.fn_body(d, 1, true);
+                    self.scopes.pop();
+                    self.tag("object-getter");
+                    parts.push(format!("get gp{}() {}", self.counter, body));
+                }
+                6 => {
+                    let p = self.fresh("p");
+                    self.push_fn_scope(&[p.clone()], false, false, false);
+                    let dir = self.directive(true);
+                    let v = self.expr(d);
+                    self.scopes.pop();
+                    self.tag("object-setter");
+                    parts.push(format!("set sp{}({p}) {{ {dir}this.k = {}; }}", self.counter, Self::arg_text(&v)));
+                }
+                7 => {
+                    // generator / async methods
+                    let p = self.fresh("p");
+                    let is_async = self.t.flag();
+                    self.push_fn_scope(&[p.clone()], is_async, !is_async, false);
+                    let v = self.expr(d);
+                    self.scopes.pop();
+                    self.tag("object-special-method");
+                    if is_async {
+                        parts.push(format!("async am({p}) {{ return {}; }}", v.print()));
+                    } else {
+                        parts.push(format!("*gm({p}) {{ yield {}; }}", Self::arg_text(&v)));
+                    }
+                }
                 0 => {
                     let v = self.expr(d);
                     parts.push(format!("{}: {}", self.t.pick(PROPS), Self::arg_text(&v)));
@@ -1272,7 +1303,13 @@ impl<'t, 'a> Gen<'t, 'a> {
                 self.scm().assignable.push(v2);
                 s
             }
-            20 => self.recursion(d),
+            20 => {
+                if self.t.chance(100) {
+                    self.sibling_arrows(d)
+                } else {
+                    self.recursion(d)
+                }
+            }
             _ => {
                 let v = self.fresh("u");
                 let e = self.expr(d);
@@ -1449,7 +1486,12 @@ impl<'t, 'a> Gen<'t, 'a> {
             }
             4 => {
                 self.tag("directive-lookalike");
-                "('use strict');\n".into()
+                if self.t.flag() {
+                    "('use strict');\n".into()
+                } else {
+                    // an empty statement first: the string below is NOT a directive
+                    ";\n'use strict';\n".into()
+                }
             }
             _ => {
                 self.tag("directive");
@@ -1521,6 +1563,34 @@ impl<'t, 'a> Gen<'t, 'a> {
                 format!("function {}({}) {}\n{} = h({});", name, params, body, t.print(), name)
             }
         }
+    }
+
+    /// two concise arrows of one block whose bodies are single method calls, the first calling the second inside its
+    /// arguments (re-entrancy between the assignment of the temporaries and the hook call)
+    fn sibling_arrows(&mut self, d: usize) -> String {
+        self.tag("sibling-arrows");
+        let ka = self.fresh("ka");
+        let kb = self.fresh("kb");
+        let m1 = self.method_name();
+        let m2 = self.method_name();
+        // the extra argument lives inside the arrow: no yield / await of the enclosing function there
+        self.push_fn_scope(&["p".to_string()], false, false, true);
+        let extra = self.expr(d.min(1));
+        self.scopes.pop();
+        let arg = self.expr(d.min(2));
+        let t = self.assignable_ident();
+        let rec = self.t.flag();
+        let body_a = if rec {
+            // recursion through its own arguments, bounded by the second parameter
+            format!("(p, n) => p.{m1}(n > 0 ? {ka}(p, n - 1) : {kb}(p), {})", Self::arg_text(&extra))
+        } else {
+            format!("(p) => p.{m1}({kb}(p), {})", Self::arg_text(&extra))
+        };
+        format!(
+            "const {kb} = (q) => q.{m2}('z');\nconst {ka} = {body_a};\n{} = {ka}({}, 2);",
+            t.print(),
+            Self::arg_text(&arg)
+        )
     }
 
     fn recursion(&mut self, d: usize) -> String {
@@ -1650,6 +1720,14 @@ impl<'t, 'a> Gen<'t, 'a> {
             members.push(format!("static sm({sp}) {{ return {}; }}", se.print()));
         }
         if self.t.chance(80) {
+            let sp = self.fresh("p");
+            self.push_fn_scope(&[sp.clone()], false, false, false);
+            let se = self.expr(d);
+            self.scopes.pop();
+            self.tag("class-setter-private");
+            members.push(format!("#priv = 1;\nset sv({sp}) {{ this.#priv = {}; }}\nget pv() {{ return this.#priv; }}", Self::arg_text(&se)));
+        }
+        if self.t.chance(80) {
             self.tag("static-block");
             let mut sc = self.sc().clone();
             sc.in_async = false;
@@ -1728,6 +1806,19 @@ impl<'t, 'a> Gen<'t, 'a> {
                 self.tag("reserved-ident");
                 self.tag("reserved:top-level-function-parameter");
                 src.push_str(&format!("function topz(__datadog_{prefix}_0, q) {{ return q + q() + `${{q}}`; }}\n"));
+            } else if self.t.chance(60) {
+                // the same for the parameter lists of a top level class (constructors / methods / setters are not `Function` nodes everywhere)
+                self.tag("reserved-ident");
+                self.tag("reserved:top-level-class-parameter");
+                let which = self.t.below(4);
+                let p0 = format!("__datadog_{prefix}_0");
+                let member = match which {
+                    0 => format!("constructor({p0}, q) {{ this.p = q + q() + `${{q}}`; }}"),
+                    1 => format!("m({{ k: {p0} }}, q) {{ return q + q() + `${{q}}`; }}"),
+                    2 => format!("set sv({p0}) {{ this.k = h() + h(); }}"),
+                    _ => format!("static sm(q, ...{p0}) {{ return q + q(); }}"),
+                };
+                src.push_str(&format!("class TopC {{ {member} }}\n"));
             }
         }
         let params: Vec<String> = ["a", "b", "c", "d", "e"].iter().map(|s| s.to_string()).collect();
